@@ -208,6 +208,47 @@ def run_case(ck, desc):
         _close(ck, "facade.oil_FVF", fl.oil_FVF(p), [oil.b_o_Standing(T, x, api, gg, gor) for x in p], desc, tol)
         _close(ck, "facade.oil_viscosity", fl.oil_viscosity(p), [oil.viscosity_beggs_robinson(T, x, api, gg, gor) for x in p], desc, tol)
         _close(ck, "facade.pressure_bubblepoint", [fl.pressure_bubblepoint()], [oil.pressure_bubblepoint_Standing(T, api, gg, gor)], desc, tol)
+        # fluids of ONE phase: the fields a method's correlation does not take are placeholders (0 as the
+        # repository's own water-only fluids are written, 0.0, nan): every method still answers with its
+        # stand-alone correlation - what that correlation does not take cannot matter
+        uses = {
+            "water_FVF": ("temperature",),
+            "water_viscosity": ("temperature", "salinity"),
+            "gas_FVF": ("temperature",),
+            "gas_viscosity": ("temperature", "gas_specific_gravity"),
+            "oil_FVF": ("temperature", "api_gravity", "gas_specific_gravity", "solution_gor_initial"),
+            "oil_viscosity": ("temperature", "api_gravity", "gas_specific_gravity", "solution_gor_initial"),
+            "pressure_bubblepoint": ("temperature", "api_gravity", "gas_specific_gravity", "solution_gor_initial"),
+        }
+        full = {"temperature": T, "api_gravity": api, "gas_specific_gravity": gg, "solution_gor_initial": gor, "salinity": sal, "water_saturation_initial": desc["Sw"]}
+        refs_ = {
+            "water_FVF": lambda x, T_: water.b_water_McCain(T_, x),
+            "water_viscosity": lambda x, T_: water.viscosity_water_McCain(T_, x, sal),
+            "gas_FVF": lambda x, T_: gas.b_factor_DAK(T_, x, Tpc, ppc),
+            "gas_viscosity": lambda x, T_: gas.viscosity_Sutton(T_, x, Tpc, ppc, gg),
+            "oil_FVF": lambda x, T_: oil.b_o_Standing(T_, x, api, gg, gor),
+            "oil_viscosity": lambda x, T_: oil.viscosity_beggs_robinson(T_, x, api, gg, gor),
+        }
+        for ph_ in (0, 0.0, float("nan")):
+            for nm, used in uses.items():
+                kw = {k_: (v_ if k_ in used else ph_) for k_, v_ in full.items()}
+                if nm.startswith("gas"):
+                    kw["temperature"] = Tg
+                try:
+                    with np.errstate(all="ignore"), warnings.catch_warnings():
+                        warnings.simplefilter("ignore")
+                        one = Fluid(**kw)
+                        if nm == "pressure_bubblepoint":
+                            got_, want_ = [one.pressure_bubblepoint()], [oil.pressure_bubblepoint_Standing(T, api, gg, gor)]
+                        elif nm.startswith("gas"):
+                            got_, want_ = getattr(one, nm)(p, Tpc, ppc), [refs_[nm](x, Tg) for x in p]
+                        else:
+                            got_, want_ = getattr(one, nm)(p), [refs_[nm](x, T) for x in p]
+                except Exception as e:  # noqa: BLE001
+                    ck.violation(f"facade.{nm}", {"with": f"every field its correlation does not take set to {ph_!r}", "raised": repr(e)[:200]}, desc)
+                    continue
+                _close(ck, f"facade.{nm} (unused fields are placeholders)", got_, want_, desc, tol, {"placeholder": repr(ph_)})
+        ck.count("single_phase_fluids_with_placeholder_fields", 3)
         # the same array object edited in place between two calls on the same Fluid (a pressure grid
         # updated by the caller's time loop): the second answer follows the array's CURRENT contents
         p2 = p.astype(float).copy()
